@@ -106,7 +106,7 @@ def include_flags(libdir):
             "-I/usr/include/eigen3"]
 
 
-def prune_cache(keep=6):
+def prune_cache(keep=24):
     """Keep the cache bounded: remove the oldest lib-* directories."""
     try:
         dirs = sorted(glob.glob(os.path.join(CACHE, "lib-*")), key=os.path.getmtime)
@@ -114,6 +114,15 @@ def prune_cache(keep=6):
         return
     for d in dirs[:-keep]:
         shutil.rmtree(d, ignore_errors=True)
+    try:
+        bins = sorted(glob.glob(os.path.join(CACHE, "bin", "*")), key=os.path.getmtime)
+    except OSError:
+        return
+    for b in bins[:-80]:
+        try:
+            os.remove(b)
+        except OSError:
+            pass
 
 
 def build_lib(variant="real", sanitize=True):
@@ -173,6 +182,7 @@ def build_harness(name, variant="real", sanitize=True, extra_flags=(), link_lib=
     exe = os.path.join(CACHE, "bin", "%s-%s-%s" % (name, variant, h.hexdigest()[:16]))
     with FileLock(os.path.join(CACHE, "locks", os.path.basename(exe) + ".lock")):
         if os.path.exists(exe):
+            os.utime(exe)
             return exe
         os.makedirs(os.path.dirname(exe), exist_ok=True)
         inc = ["-I" + HARNESS_DIR] + ["-I" + i for i in extra_inc]
